@@ -52,7 +52,9 @@ type iState struct {
 	errRP, errRN error
 }
 
-func interleaveBroker() *iState {
+func interleaveBroker() *iState { return interleaveBrokerN(symLen(0, 3)) }
+
+func interleaveBrokerN(pre int) *iState {
 	r := &iState{ctx: &vCtx{}}
 	b, _ := NewBroker()
 	r.b = b
@@ -60,18 +62,56 @@ func interleaveBroker() *iState {
 	b.RegisterNode("f", r.f)
 	b.RegisterNode("s", r.s)
 	b.RegisterNode("s2", r.s2)
-	if nondetBool() {
+	if pre == 1 || pre == 3 {
 		b.RegisterPipeline(Pipeline{PipelineID: "p", EventType: "t", NodeIDs: []NodeID{"f", "s"}})
 	}
-	if nondetBool() {
+	if pre == 2 || pre == 3 {
 		b.RegisterPipeline(Pipeline{PipelineID: "q", EventType: "t", NodeIDs: []NodeID{"f", "s2"}})
 	}
 	return r
 }
 
+const nMutators = 10
+
+// observe: what a client can observe of the registry once it is quiescent
+type iObs struct {
+	p, q         bool
+	f, s, s2     bool
+	th, ths      int
+	known        bool
+	fc, sc, s2c  int
+}
+
+func (r *iState) observe() iObs {
+	b := r.b
+	o := iObs{}
+	if g, ok := b.graphs["t"]; ok {
+		g.roots.Range(func(id PipelineID, _ *registeredPipeline) bool {
+			if id == "p" {
+				o.p = true
+			}
+			if id == "q" {
+				o.q = true
+			}
+			return true
+		})
+	}
+	_, o.f = b.nodes["f"]
+	_, o.s = b.nodes["s"]
+	_, o.s2 = b.nodes["s2"]
+	o.th, o.known = b.SuccessThreshold("t")
+	o.ths, _ = b.SuccessThresholdSinks("t")
+	o.fc, o.sc, o.s2c = r.f.closes, r.s.closes, r.s2.closes
+	return o
+}
+
 func (r *iState) mutator(k int) {
 	b := r.b
 	switch k {
+	case 8:
+		b.SetSuccessThreshold("t", 2)
+	case 9:
+		b.SetSuccessThresholdSinks("t", 3)
 	case 0:
 		b.RegisterPipeline(Pipeline{PipelineID: "p", EventType: "t", NodeIDs: []NodeID{"f", "s"}})
 	case 1:
@@ -94,9 +134,12 @@ func (r *iState) mutator(k int) {
 // C04/C06: after any two mutators have run concurrently the registry satisfies the representation invariant,
 // i.e. it is a state some sequential order of the two calls could have produced as far as accounting goes.
 func H_C04_mutators_interleaved() {
-	r := interleaveBroker()
-	a := symLen(0, 7)
-	c := symLen(0, 7)
+	pre := nondetInt() // the same arbitrary pre-state is built three times (concurrent run and the two sequential orders)
+	verifAssume(pre >= 0)
+	verifAssume(pre <= 3)
+	r := interleaveBrokerN(pre)
+	a := symLen(0, nMutators-1)
+	c := symLen(0, nMutators-1)
 	verifNoteInt("opA", a)
 	verifNoteInt("opB", c)
 	brokerInvariant(r.b, "C04.interleaved.pre")
@@ -107,6 +150,15 @@ func H_C04_mutators_interleaved() {
 	verifInterleave(false)
 	brokerInvariant(r.b, "C04.interleaved")
 	verifAssert(r.f.closes <= 1 && r.s.closes <= 1 && r.s2.closes <= 1, "C04.interleaved.closed-at-most-once")
+	// once quiescent the broker behaves as if the two calls had run in some sequential order
+	got := r.observe()
+	r1 := interleaveBrokerN(pre)
+	r1.mutator(a)
+	r1.mutator(c)
+	r2 := interleaveBrokerN(pre)
+	r2.mutator(c)
+	r2.mutator(a)
+	verifAssert(got == r1.observe() || got == r2.observe(), "C04.interleaved.equivalent-to-a-sequential-order")
 	verifReach("C04.interleaved.end")
 }
 
